@@ -628,6 +628,67 @@ async fn faults(r: &mut Rng) -> (String, String) {
     (sig, "ok".into())
 }
 
+/// C03: a receiver that stops receiving (its last receive was cancelled while the return of flow credits
+/// waited for a slot in the endpoint's event queue) must not stop the other ports of the endpoint.
+async fn blocking(r: &mut Rng) -> (String, String) {
+    let ca = cfg(r, None);
+    let mut cb = cfg(r, None);
+    cb.shared_send_queue = r.range(1, 2) as usize;
+    cb.transport_send_queue = 1;
+    cb.receive_buffer = *r.pick(&[4u32, 5, 7, 8, 16]);
+    cb.max_ports = 100;
+    let q = cb.shared_send_queue;
+    let sig = format!("blocking:q{q}:rb{}", cb.receive_buffer);
+    let mut ca = ca;
+    ca.max_ports = 100;
+    ca.receive_buffer = 1024;
+    let mut p = conn::connect(ca, cb).await;
+    // port P: A -> B data; port Q: B -> A data
+    let ((mut tx_p, _ra_p), (_tb_p, mut rx_p)) = conn::open_port(&mut p).await;
+    let ((_ta_q, mut rx_q), (mut tx_q, _rb_q)) = conn::open_port(&mut p).await;
+    // some messages for P arrive at B
+    for i in 0..3u8 {
+        let _ = tx_p.try_send(&Bytes::from(vec![i; 2]));
+        quiesce().await;
+    }
+    // B cannot write to the transport for a while: its queues fill up with Q's traffic
+    p.net.b2a.set_sink_ready(false);
+    for _ in 0..8 {
+        let _ = tx_q.try_send(&Bytes::from_static(b"q"));
+        quiesce().await;
+    }
+    // the receiver of P consumes what it has; returning the credits finds the event queue full
+    for _ in 0..4 {
+        let _ = rx_p.recv_any().now_or_never();
+    }
+    // ... and its next receive is cancelled (now_or_never drops the future after one poll)
+    let _ = rx_p.recv_any().now_or_never();
+    quiesce().await;
+    // the transport recovers; P's receiver is NOT polled again
+    p.net.b2a.set_sink_ready(true);
+    for _ in 0..3 {
+        quiesce().await;
+    }
+    // port Q must still work in both respects: sending and being closed
+    let send_task = tokio::spawn(async move {
+        for _ in 0..3 {
+            if tx_q.send(Bytes::from_static(b"after")).await.is_err() {
+                return false;
+            }
+        }
+        true
+    });
+    for _ in 0..6 {
+        quiesce().await;
+        let _ = recv_all_now(&mut rx_q).await;
+    }
+    if !send_task.is_finished() {
+        return (sig, "FAIL: C03 sends on port Q are blocked by port P, whose receiver does not receive (a cancelled receive left its credit return holding the event queue)".into());
+    }
+    drop(rx_p);
+    (sig, "ok".into())
+}
+
 pub fn exec(inp: &[u128]) -> (Vec<u128>, String, String) {
     if inp.len() < 2 {
         return (vec![98], "net:malformed".into(), "ok".into());
@@ -642,6 +703,7 @@ pub fn exec(inp: &[u128]) -> (Vec<u128>, String, String) {
             0 => lifecycle(&mut r).await,
             1 => connects(&mut r).await,
             2 => closing(&mut r).await,
+            4 => blocking(&mut r).await,
             _ => faults(&mut r).await,
         };
         remoc::exec::verif::set_defer_seed(0);
